@@ -32,6 +32,33 @@ func (w *World) contractFor(ss *SpecSet, fn *ssa.Function) *Contract {
 
 // lookupLocal resolves a source-level local variable name to its current symbolic value at loop header h.
 func (e *enc) lookupLocal(fr *frame, h *ssa.BasicBlock, phiVals map[*ssa.Phi]Term, mem map[string]Term, name string) (tval, bool) {
+	// 0. scope-aware: the variable's current SSA value at this point (dominating DebugRefs and phi comments)
+	if v, ok := fr.curNames[name]; ok {
+		if phi, isPhi := v.(*ssa.Phi); isPhi {
+			if t, ok := phiVals[phi]; ok {
+				return e.mkT(t, phi.Type()), true
+			}
+		}
+		if a, isAlloc := v.(*ssa.Alloc); isAlloc {
+			if l, ok := fr.loc[a]; ok && l.ty != nil {
+				return e.mkT(e.readIn(mem, l), l.ty), true
+			}
+		}
+		if p, ok := fr.prov[v]; ok {
+			if _, isMap := v.Type().Underlying().(*types.Map); isMap {
+				return e.mkT(e.readIn(mem, p), v.Type()), true
+			}
+		}
+		if _, ok := fr.val[v]; ok {
+			return e.mkT(e.value(v), v.Type()), true
+		}
+		if _, ok := v.(*ssa.Const); ok {
+			return e.mkT(e.value(v), v.Type()), true
+		}
+		if _, ok := v.(*ssa.Parameter); ok {
+			return e.mkT(e.value(v), v.Type()), true
+		}
+	}
 	// 1. phi of this header
 	if h != nil {
 		for _, in := range h.Instrs {
@@ -138,6 +165,9 @@ func (e *enc) loopEnv(fr *frame, h *ssa.BasicBlock, phiVals map[*ssa.Phi]Term, m
 			}
 			if phi.Comment == "rangeindex" {
 				if t, ok := phiVals[phi]; ok {
+					if t == "(- 1)" {
+						return "0", true
+					}
 					return fmt.Sprintf("(+ %s 1)", t), true
 				}
 			}
@@ -153,10 +183,16 @@ func (e *enc) fnEnv(fr *frame, mem map[string]Term) *specEnv {
 	if fr.fn.Pkg != nil {
 		env.pkg = fr.fn.Pkg.Pkg
 	}
+	env.varLoc = map[string]*Loc{}
 	for _, p := range fr.fn.Params {
 		env.vars[p.Name()] = e.mkT(e.value(p), p.Type())
 		if l, ok := fr.loc[p]; ok {
 			env.ptrLoc[p.Name()] = l
+		}
+		if _, isMap := p.Type().Underlying().(*types.Map); isMap {
+			if l, ok := fr.prov[p]; ok {
+				env.varLoc[p.Name()] = l
+			}
 		}
 	}
 	for i, fv := range fr.fn.FreeVars {
